@@ -18,6 +18,7 @@
 -/
 import Melda.Props.C08b
 import Melda.Props.C16c
+import Melda.Props.C15b
 namespace Melda.Props.C08c
 open Melda Melda.RevTree Melda.DState Melda.Props.C08b
 open Melda.Props.C05 (CmpOrder KeysNodup WellIndexed Reaches LiveLeaf)
@@ -432,5 +433,121 @@ theorem update_aborts_without_winner :
   have : orphanTree.winner = none := by decide
   rw [this] at hw; cases hw
 end D24
+
+end Melda.Props.C08c
+
+namespace Melda.Props.C08c
+open Melda Melda.RevTree Melda.DState Melda.Props.C08b
+
+/-! ### The remaining entry points of the object API and of staging: no abort, without any invariant -/
+
+/-- `remove_object` never aborts (it fails with `object_has_no_winner` at worst) -/
+theorem removeObject_no_panic (H : Bytes → Str) (st : DState) (u : Str) (m : String) :
+    removeObject H st u ≠ .panic m := by
+  unfold removeObject
+  cases st.treeOf u with
+  | none => exact fun h => nomatch h
+  | some t =>
+    simp only
+    split
+    · exact fun h => nomatch h
+    · cases t.unstage.winner with
+      | none => exact fun h => nomatch h
+      | some w =>
+        simp only
+        split <;> exact fun h => nomatch h
+
+/-- the only abort of `create_object` is a failing `digest_object` (an `_id` field inside the object, a `#`
+    field of a wrong type): the `expect("cannot_create_revision")` of the code -/
+theorem createObject_no_panic {H : Bytes → Str} {st : DState} {u : Str} {o : JObj} {d : Str}
+    (hd : digestObject H o = .ok d) (m : String) : createObject H st u o ≠ .panic m := by
+  simp only [createObject, hd]
+  generalize (((st.writeObject (Rev.mk1 d) o).treeOf u).getD RevTree.empty).add (Rev.mk1 d) none true = T
+  obtain ⟨t', added⟩ := T
+  exact fun h => nomatch h
+
+/-- the guarded entry points refuse deep objects with an error, not an abort -/
+theorem createObjectG_no_panic {H : Bytes → Str} {st : DState} {u : Str} {o : JObj} {d : Str}
+    (hd : digestObject H o = .ok d) (m : String) : createObjectG H st u o ≠ .panic m := by
+  unfold createObjectG
+  split
+  · exact fun h => nomatch h
+  · exact createObject_no_panic hd m
+
+theorem updateG_no_panic_of {H : Bytes → Str} {src : Src} {st : DState} {doc : JObj}
+    (h : ∀ m, update H src st doc ≠ .panic m) (m : String) : updateG H src st doc ≠ .panic m := by
+  unfold updateG
+  split
+  · exact fun h => nomatch h
+  · exact h m
+
+/-- one record of `replay_stage` never aborts -/
+theorem recStep_no_panic (H : Bytes → Str) (acc : Res DState) (rc : JVal) (hacc : ∀ m, acc ≠ .panic m) (m : String) :
+    Melda.Props.C15b.recStep H acc rc ≠ .panic m := by
+  unfold Melda.Props.C15b.recStep
+  cases acc with
+  | panic m' => exact absurd rfl (hacc m')
+  | err e => exact fun h => nomatch h
+  | ok d =>
+    simp only
+    split
+    · exact fun h => nomatch h
+    · split <;> exact fun h => nomatch h
+    · exact fun h => nomatch h
+    · exact fun h => nomatch h
+    · exact fun h => nomatch h
+
+theorem recFold_no_panic (H : Bytes → Str) : ∀ (recs : List JVal) (acc : Res DState), (∀ m, acc ≠ .panic m) →
+    ∀ m, recs.foldl (Melda.Props.C15b.recStep H) acc ≠ .panic m
+  | [], acc, h, m => h m
+  | rc :: rest, acc, h, m => by
+    rw [List.foldl_cons]
+    exact recFold_no_panic H rest _ (fun m' => recStep_no_panic H acc rc h m') m
+
+/-- **`replay_stage` never aborts, whatever it is given** (a foreign export, junk, records in any order): it
+    answers `.ok` or an error.  (What it may LEAVE BEHIND - an object without winner, the known finding D24 -
+    is another matter: `update_aborts_without_winner`.) -/
+theorem replayStage_no_panic (H : Bytes → Str) (st : DState) (s : JVal) (m : String) :
+    replayStage H st s ≠ .panic m := by
+  cases s with
+  | obj so =>
+    rw [Melda.Props.C15b.replayStage_obj]
+    cases ho : objGet ['o'] so with
+    | none =>
+      simp only
+      cases hcc : objGet ['c'] so with
+      | none => exact fun h => nomatch h
+      | some v =>
+        cases v with
+        | arr recs => exact recFold_no_panic H recs (.ok _) (fun _ h => by cases h) m
+        | null => exact fun h => nomatch h
+        | bool _ => exact fun h => nomatch h
+        | num _ => exact fun h => nomatch h
+        | str _ => exact fun h => nomatch h
+        | obj _ => exact fun h => nomatch h
+    | some v =>
+      cases v with
+      | obj bodies =>
+        simp only
+        cases hcc : objGet ['c'] so with
+        | none => exact fun h => nomatch h
+        | some v =>
+          cases v with
+          | arr recs => exact recFold_no_panic H recs (.ok _) (fun _ h => by cases h) m
+          | null => exact fun h => nomatch h
+          | bool _ => exact fun h => nomatch h
+          | num _ => exact fun h => nomatch h
+          | str _ => exact fun h => nomatch h
+          | obj _ => exact fun h => nomatch h
+      | null => exact fun h => nomatch h
+      | bool _ => exact fun h => nomatch h
+      | num _ => exact fun h => nomatch h
+      | str _ => exact fun h => nomatch h
+      | arr _ => exact fun h => nomatch h
+  | null => exact fun h => nomatch h
+  | bool _ => exact fun h => nomatch h
+  | num _ => exact fun h => nomatch h
+  | str _ => exact fun h => nomatch h
+  | arr _ => exact fun h => nomatch h
 
 end Melda.Props.C08c
